@@ -410,3 +410,9 @@ int MxEndpoint::app_close() {
     if (on_api) { on_api(*this, "app_close"); }
     return rc;
 }
+
+// The harness's own lazily initialised statics, touched once on the controller thread before simulated threads start (C20)
+void harness_prewarm() {
+    (void) all_tls12_suites(); (void) all_tls13_suites();
+    if (g_trace < 0) { g_trace = getenv("VSIM_TRACE") ? 1 : 0; }
+}
